@@ -41,8 +41,9 @@ def cappedMint (st : State) (b : Block) : Int :=
 def mintAndAllocate (st : State) (b : Block) : State × Int :=
   if st.prevTS = 0 then ({ st with prevTS := b.timeMs }, 0)
   else if cappedMint st b < 0 then
-    -- negative: logged, nothing minted, timestamp not advanced (the cap branch may have switched off)
-    ({ st with enabled := st.enabled && !crossing st b }, 0)
+    -- negative: logged, nothing minted; the block still becomes the reference of the next one (the cap branch may have
+    -- switched off)
+    ({ st with enabled := st.enabled && !crossing st b, prevTS := b.timeMs }, 0)
   else
     ({ st with enabled := st.enabled && !crossing st b, prevTS := b.timeMs }, roundInt (cappedMint st b))
 
